@@ -874,6 +874,87 @@ class _CmpCanon(ast.NodeTransformer):
         return node
 
 
+def _dict_display_loops(fdef):
+    """N31: a local bound once to a dict display with constant keys and plain values (names / constants / attribute paths that are bound at most once),
+    never modified and only iterated, indexed with a constant or tested for membership, is its display: `for k, v in D.items()` iterates the
+    (key, value) pairs, `for k in D` the keys, `D["k"]` is the value."""
+    stores, loads = {}, {}
+    parent = {}
+    for n in ast.walk(fdef):
+        for c in ast.iter_child_nodes(n):
+            parent[id(c)] = n
+        if isinstance(n, ast.Name):
+            (stores if isinstance(n.ctx, (ast.Store, ast.Del)) else loads).setdefault(n.id, []).append(n)
+        elif isinstance(n, ast.arg):
+            stores.setdefault(n.arg, []).append(n)
+    cands = {}
+    for st in ast.walk(fdef):
+        if isinstance(st, ast.Assign) and len(st.targets) == 1 and isinstance(st.targets[0], ast.Name) and isinstance(st.value, ast.Dict) and st.value.keys \
+                and all(isinstance(k, ast.Constant) and isinstance(k.value, (str, int)) for k in st.value.keys) \
+                and len({k.value for k in st.value.keys}) == len(st.value.keys) \
+                and all(_side_effect_free(v) or _is_const(v) for v in st.value.values):
+            nm = st.targets[0].id
+            if len(stores.get(nm, [])) != 1:
+                continue
+            vnames = {x.id for v in st.value.values for x in ast.walk(v) if isinstance(x, ast.Name)}
+            if any(len(stores.get(x, [])) > 1 for x in vnames):
+                continue
+            ok = True
+            for u in loads.get(nm, []):
+                p = parent.get(id(u))
+                if isinstance(p, ast.For) and p.iter is u:
+                    continue
+                if isinstance(p, ast.Attribute) and p.value is u and p.attr in ("items", "keys", "values"):
+                    pc = parent.get(id(p))
+                    pf = parent.get(id(pc))
+                    if isinstance(pc, ast.Call) and pc.func is p and not pc.args and not pc.keywords and isinstance(pf, ast.For) and pf.iter is pc:
+                        continue
+                if isinstance(p, ast.Subscript) and p.value is u and isinstance(p.ctx, ast.Load) and isinstance(p.slice, ast.Constant) \
+                        and p.slice.value in [k.value for k in st.value.keys]:
+                    continue
+                if isinstance(p, ast.Compare) and len(p.ops) == 1 and isinstance(p.ops[0], (ast.In, ast.NotIn)) and p.comparators[0] is u:
+                    continue
+                ok = False
+                break
+            if ok:
+                cands[nm] = st.value
+    if not cands:
+        return
+
+    class T(ast.NodeTransformer):
+        def visit_For(self, node):
+            self.generic_visit(node)
+            it = node.iter
+            nm, kind = None, None
+            if isinstance(it, ast.Name) and it.id in cands:
+                nm, kind = it.id, "keys"
+            elif isinstance(it, ast.Call) and isinstance(it.func, ast.Attribute) and isinstance(it.func.value, ast.Name) and it.func.value.id in cands \
+                    and it.func.attr in ("items", "keys", "values") and not it.args:
+                nm, kind = it.func.value.id, it.func.attr
+            if nm is None:
+                return node
+            d = cands[nm]
+            if kind == "keys":
+                elts = [copy.deepcopy(k) for k in d.keys]
+            elif kind == "values":
+                elts = [copy.deepcopy(v) for v in d.values]
+            else:
+                elts = [ast.Tuple(elts=[copy.deepcopy(k), copy.deepcopy(v)], ctx=ast.Load()) for k, v in zip(d.keys, d.values)]
+            node.iter = ast.copy_location(ast.List(elts=elts, ctx=ast.Load()), it)
+            ast.fix_missing_locations(node.iter)
+            return node
+
+        def visit_Subscript(self, node):
+            self.generic_visit(node)
+            if isinstance(node.value, ast.Name) and node.value.id in cands and isinstance(node.ctx, ast.Load) and isinstance(node.slice, ast.Constant):
+                d = cands[node.value.id]
+                for k, v in zip(d.keys, d.values):
+                    if k.value == node.slice.value and type(k.value) is type(node.slice.value):
+                        return ast.copy_location(copy.deepcopy(v), node)
+            return node
+    T().visit(fdef)
+
+
 def _merge_dict_stores(fdef):
     """N26: `d = {k1: v1, ..}; d[K] = V` (K a new constant key, V not reading d, the store right after the display) -> `d = {k1: v1, .., K: V}`:
     a reply built in two steps and one written as a single display get one form; the evaluation order is unchanged."""
@@ -1367,6 +1448,7 @@ class Normalizer:
         fdef.body = _sink_returns(fdef.body)
         state = {"locals": _local_names(fdef), "caller": stack[0], "displays": _single_displays(fdef), "module": modname, "root": fdef}
         self._closures = {}
+        _dict_display_loops(fdef)
         self._comp_displays(fdef, modname, cname, state)
         _merge_dict_stores(fdef)
         fdef.body = _drop_dead_defs(fdef, _flatten_blocks(self._stmts(fdef.body, modname, cname, stack, state)))
@@ -2230,7 +2312,7 @@ class Normalizer:
                 # element-wise: constants and constant paths (self.UPPER.CASE chains) take the place of the loop variable, the rest is assigned
                 m, pre = {}, []
                 for t, v in pairs:
-                    if (_is_const(v) or _stable_path(v)) and t not in stored:
+                    if (_is_const(v) or _stable_path(v) or (isinstance(v, ast.Name) and v.id not in stored)) and t not in stored:
                         m[t] = v
                     else:
                         a = ast.Assign(targets=[ast.Name(id=t, ctx=ast.Store())], value=copy.deepcopy(v), type_comment=None)
